@@ -518,6 +518,16 @@ def f_relx():
     add("exclusive + required", cmd("p", [arg("e", "e", action="SetTrue", exclusive=True), arg("r", "r", required=True), arg("f", "f", action="SetTrue")]), values=("v",))
     add("nested groups", cmd("p", [arg("a", "a", action="SetTrue"), arg("b", "b", action="SetTrue"), arg("c", "c", action="SetTrue")],
                              groups=[group("inner", ["a", "b"]), group("outer", ["inner", "c"], required=True)]), values=())
+    # an override removes one member of a multiple group while another member stays: the group is still present
+    add("multiple group, one member overridden", cmd("p", [arg("a", "a", action="SetTrue"), arg("c", "c", action="SetTrue"), arg("b", "b", action="SetTrue", overrides=["a"]),
+                                                           arg("x", "x", action="SetTrue"), arg("d", "d", action="SetTrue", conflicts=["g"])],
+                                                     groups=[group("g", ["a", "c"], multiple=True, requires=["x"])]), values=())
+    # a conditional default looks at what the matcher holds: the default of an earlier argument counts, the comparison is exact
+    # (the condition argument's ignore_case is for its own value parser and for requires/required rules)
+    add("default_value_if on a defaulted, ignore_case condition", cmd("p", [arg("u", "u", "uu", defaults=["k"], ignore_case=True),
+                                                                            arg("a", "a", "aa", defaults=["d"], default_ifs=[("u", "k", "j")]),
+                                                                            arg("t", "t", action="SetTrue", default_ifs=[])]),
+        extra=["--uu=K", "--uu=k", "--uu=z"], values=())
     return D
 
 
